@@ -258,4 +258,23 @@ example : inI64 i64Min = true ∧ inI64 i64Max = true := by decide
 example : arrGet [iV 7, iV 8, iV 9] (-1) = some (iV 9) := by rfl
 example : parseI64 (intRepr i64Min) = some i64Min := (C07_int_roundtrip i64Min (by decide)).2.1
 
+
+/-- **What is not a position does not exist.** On an array a step that is neither an integer (nor a
+string spelling one) nor one of the three names selects nothing — a decimal such as `1.5`, a
+boolean, `nil`, a string like `"nan"` never denote a neighbouring element. -/
+theorem C07_array_not_a_position (xs : List V) (k : Sc) (hi : k.toInteger? = none)
+    (h1 : k.render ≠ "first".toList) (h2 : k.render ≠ "last".toList) (h3 : k.render ≠ "size".toList) :
+    augGet (.arr xs) k = none := by
+  simp only [augGet, hi]
+  simp at h1 h2 h3 ⊢
+  simp [h1, h2, h3]
+
+/-- … hence an output tag with such a step fails (with `C07_stepwise`, at whatever depth) -/
+theorem C07_array_not_a_position_path (xs : List V) (k : Sc) (p : List Sc) (hi : k.toInteger? = none)
+    (h1 : k.render ≠ "first".toList) (h2 : k.render ≠ "last".toList) (h3 : k.render ≠ "size".toList) :
+    tryFind (.arr xs) (k :: p) = none := by
+  simp [tryFind, C07_array_not_a_position xs k hi h1 h2 h3]
+
+example : augGet (.arr [.sc (.int 10), .sc (.int 20)]) (.str "nan".toList) = none := by decide
+
 end Liquid.C07
